@@ -40,12 +40,27 @@ extern std::atomic<long> g_progress;
 long g_root_in_iter = 0;
 bool g_root_loop = false;
 long g_iter_end_visits[16] = {0};
+// C20 (live part): the time budget the running search works with, as the iteration loop sees it (hook argument b)
+long long g_budget_first = -1, g_budget_max = -1, g_budget_min = -1;
+long g_budget_obs = 0;
+int g_budget_raised_at_depth = 0;
 
 void hook(verif::Point p, const verif::Ctx& c)
 {
     g_point[p]++;
     g_progress++;
     if (p == verif::ITER_BEGIN) g_root_in_iter = 0;
+    if (p == verif::ITER_BEGIN || p == verif::ITER_END || p == verif::BEFORE_BESTMOVE)
+    {
+        long long b = c.b;
+        if (g_budget_obs++ == 0) g_budget_first = g_budget_max = g_budget_min = b;
+        if (b > g_budget_max)
+        {
+            g_budget_max = b;
+            if (!g_budget_raised_at_depth && p != verif::BEFORE_BESTMOVE) g_budget_raised_at_depth = int(c.a);
+        }
+        if (b < g_budget_min) g_budget_min = b;
+    }
     if (p == verif::ITER_END && c.a >= 0 && c.a < 16) g_iter_end_visits[c.a] = g_visits;
     if (p == verif::NODE || p == verif::QNODE)
     {
@@ -173,6 +188,9 @@ RunResult run_go(Rig& rig, const Position& P, const Board& B, const GoSpec& g, l
     g_root_loop = false;
     g_root_in_iter = 0;
     g_root_entries = 0;
+    g_budget_obs = 0;
+    g_budget_first = g_budget_max = g_budget_min = -1;
+    g_budget_raised_at_depth = 0;
     g_root_changed = false;
     g_root_fen = P.fen();
     g_root_hash = P.hash();
@@ -513,6 +531,119 @@ int main(int argc, char** argv)
         RunResult r = run_go(*rig, P, B, g, CAP);
         fprintf(stderr, "%s", r.text.c_str());
         judge_all(B, g, r, "fresh");
+        rec.emit();
+        return 0;
+    }
+
+    if (PROP == "C20")
+    {
+        // The allotment as the running search uses it: every budget value the iteration loop works with (read at the start
+        // and end of each iteration and right before bestmove) must stay within 0 .. 70% of the mover's clock. Verdicts are
+        // on these values, never on elapsed wall time.
+        for (long i = 0; i < n; ++i)
+        {
+            Board B;
+            bool single = false;
+            if (i % 4 == 0)
+            {
+                // roots with exactly one legal move (the engine treats them specially)
+                for (int tries = 0; tries < 400 && !single; ++tries)
+                {
+                    if (tries % 8 == 0 && gen::only_ep_evasion(rng, B, 2000) && B.legal().size() == 1)
+                    {
+                        single = true;
+                        break;
+                    }
+                    Board b = tries % 2 ? gen::synth(rng, gen::T_CHECK) : Board::fen(gen::CORPUS[rng.below(gen::CORPUS_N)]);
+                    gen::Policy pol;
+                    gen::Game gm = gen::random_game(rng, b, 60, pol, "root");
+                    for (const orc::Move& m : gm.moves)
+                    {
+                        b = b.after(m);
+                        if (b.legal().size() == 1 && b.halfmove <= 140)
+                        {
+                            B = b;
+                            single = true;
+                            break;
+                        }
+                    }
+                }
+                if (!single) B = random_root(int(i));
+            }
+            else
+                B = random_root(int(i % 3));  // played-out games and corpus positions: loose pieces, unstable scores
+            std::vector<orc::Move> legal = B.legal();
+            single = legal.size() == 1;
+            Position P(B.fen());
+            if (i % 5 == 0)
+            {
+                rig->table.clear();
+                rig->scorer.clear();
+            }
+            else
+                rig->table.updateEpoch(1);
+            GoSpec g;
+            bool cap_regime = i % 4 != 0 && rng.below(10) < 6;
+            int T, inc = 0, mtg = 0;
+            if (cap_regime)
+            {
+                // the allotment sits at (or near) the 70% cap: last moves before the time control, or increment above the clock
+                T = 1200 + int(rng.below(2600));
+                if (rng.below(3)) mtg = 1 + int(rng.below(2));
+                else inc = T + int(rng.below(3000));
+            }
+            else
+            {
+                static const int TT[] = {1, 2, 7, 30, 100, 250, 600, 713, 714, 715, 1500, 3000};
+                static const int II[] = {0, 0, 0, 50, 1000, 10000};
+                static const int MM[] = {0, 0, 1, 2, 3, 10, 40, 200};
+                T = TT[rng.below(12)];
+                inc = II[rng.below(6)];
+                mtg = MM[rng.below(8)];
+            }
+            int other = rng.below(2) ? 1 : 600000;  // the opponent's clock must not matter
+            g.wtime = B.stm == orc::WHITE ? T : other;
+            g.btime = B.stm == orc::WHITE ? other : T;
+            g.winc = B.stm == orc::WHITE ? inc : 600000 - inc;
+            g.binc = B.stm == orc::WHITE ? 600000 - inc : inc;
+            g.movestogo = mtg;
+            std::string table = "warm";
+            set_cur(B, g, table);
+            RunResult r = run_go(*rig, P, B, g, CAP);
+            rec.evaluations++;
+            rec.count("live-searches");
+            rec.count(single ? "live-searches:single-legal-move" : "live-searches:several-legal-moves");
+            if (cap_regime) rec.count("live-searches:allotment-at-the-cap");
+            rec.count("live-budget-observations", g_budget_obs);
+            rec.count("node-visits", r.visits);
+            // what the search went through: finished iterations and score swings (a budget extension keyed on them would show here)
+            int maxd = 0, drops = 0;
+            for (size_t k = 0; k < r.out.infos.size(); ++k)
+            {
+                const judge::Info& a = r.out.infos[k];
+                maxd = std::max(maxd, a.depth);
+                if (k && a.depth > 4 && !a.has_mate && !r.out.infos[k - 1].has_mate && std::abs(a.score - r.out.infos[k - 1].score) > 100) ++drops;
+            }
+            rec.counters["max-iteration-finished"] = std::max<long long>(rec.counters["max-iteration-finished"], maxd);
+            if (maxd >= 6) rec.count("live-searches:finished-iteration>=6");
+            if (drops) rec.count("live-searches:score-swing>100cp-after-depth-4");
+            if (drops && cap_regime) rec.count("live-searches:score-swing-with-allotment-at-the-cap");
+            auto exj = [&]() {
+                return vh::J().str("fen", B.fen()).str("go", g.text()).num("clock_ms", T).num("budget_at_first_iteration", g_budget_first).num("budget_max", g_budget_max)
+                    .num("budget_min", g_budget_min).num("raised_at_depth", g_budget_raised_at_depth).num("legal_root_moves", (long long)legal.size()).done();
+            };
+            if (g_budget_max > 0) rec.count("live-searches:budget-positive");
+            if (g_budget_obs == 0) rec.count("live-searches:no-budget-observation");
+            else
+            {
+                std::string ctx = single ? "single-legal-move" : g_budget_max > g_budget_first ? "raised-during-search" : "from-the-first-iteration";
+                if (g_budget_min < 0) rec.violation("live-budget-negative:" + ctx, exj());
+                if (10 * g_budget_max > 7LL * T) rec.violation("live-budget-above-70%:" + ctx, exj());
+            }
+            rec.nontrivial(vh::fnv(B.key4() + g.text()));
+            if (rec.samples.size() < rec.max_samples && rng.below(10) == 0) rec.sample(exj());
+        }
+        for (int p = 0; p < verif::POINT_NUM; ++p) rec.count("hook-point-" + std::to_string(p), g_point[p]);
         rec.emit();
         return 0;
     }
